@@ -28,9 +28,9 @@ var day0 = time.Date(2010, 3, 1, 0, 0, 0, 0, time.UTC)
 // AssetState: the days (offsets from 2010-03-01) held by source and target for one asset.
 type AssetState struct {
 	Name       string `json:"name"`
-	Source     []int  `json:"source"`    // nil: the asset is missing from the source
+	Source     []int  `json:"source"` // nil: the asset is missing from the source
 	InSource   bool   `json:"in_source"`
-	Target     []int  `json:"target"`    // nil and !InTarget: unknown to the target
+	Target     []int  `json:"target"` // nil and !InTarget: unknown to the target
 	InTarget   bool   `json:"in_target"`
 	Requested  bool   `json:"requested"` // listed in Sync.Assets (when the list is explicit)
 	FailRead   bool   `json:"fail_read"`
@@ -120,9 +120,9 @@ func contents(r asset.Repository, name string) ([]int, bool) {
 }
 
 type outcome struct {
-	state map[string][]int
-	err1  error
-	err2  error
+	state  map[string][]int
+	err1   error
+	err2   error
 	state2 map[string][]int
 	// third run, after the injected faults have been lifted (a transient outage, then a retry)
 	err3   error
